@@ -3,6 +3,7 @@ package vegeta
 import (
 	"fmt"
 	"math"
+	"math/bits"
 	"time"
 )
 
@@ -61,14 +62,27 @@ func (cp ConstantPacer) Pace(elapsed time.Duration, hits uint64) (time.Duration,
 		// Running behind, send next hit immediately.
 		return 0, false
 	}
-	interval := uint64(cp.Per.Nanoseconds() / int64(cp.Freq))
-	if math.MaxInt64/interval < hits {
+	// The next hit is due at ceil((hits+1) * Per / Freq), computed exactly in
+	// 128 bits: truncating Per/Freq to whole nanoseconds first would make the
+	// pacer run ahead of its rate (and divide by zero when Freq > Per).
+	if hits == math.MaxUint64 {
+		return 0, true
+	}
+	hi, lo := bits.Mul64(hits+1, uint64(cp.Per))
+	if hi >= uint64(cp.Freq) {
 		// We would overflow delta if we continued, so stop the attack.
 		return 0, true
 	}
-	delta := time.Duration((hits + 1) * interval)
+	delta, rem := bits.Div64(hi, lo, uint64(cp.Freq))
+	if rem != 0 {
+		delta++
+	}
+	if delta > math.MaxInt64 {
+		// We would overflow delta if we continued, so stop the attack.
+		return 0, true
+	}
 	// Zero or negative durations cause time.Sleep to return immediately.
-	return delta - elapsed, false
+	return time.Duration(delta) - elapsed, false
 }
 
 // Rate returns a ConstantPacer's instantaneous hit rate (i.e. requests per second)
